@@ -571,6 +571,10 @@ def run(chk):
     chk.rule("ofs-pair", "state-side swap => operator-side swap with the same model and JW flag (or NotImplementedError)", 3)
     chk.rule("swap-co-update", "Mpo.try_swap_site updates symbolic_out_ops_list[i+1], [i+2], model, qn[i+1] and both site tensors", 6)
     chk.rule("jw-vocabulary", "table_row_swapped_jw recognises the spin-symbol spellings produced by generate_ladder_operator / simplify_op", 2)
+    chk.rule("factor-dtype", "the swap routines (and the builder they call) write term factors only into arrays that take their dtype from the factors (shared with C01): a Jordan-Wigner swap "
+             "of a Hamiltonian with complex coefficients keeps their imaginary parts", 2)
+    from .C01 import factor_dtype_rule
+    factor_dtype_rule(chk, src)
     chk.rule("jw-flag", "operator side applies the Jordan-Wigner remapping under the flag passed by try_swap_site (state side: state-swap runs)", 1)
     chk.rule("qc-term-coverage", "qc_model (abstract run on sparse symbolic integrals): one processed term per non-zero integral in both layouts", 2)
     chk.rule("out-ops-shape", "the bond operators kept for later site swaps have one structure whichever path of construct_symbolic_mpo built them (abstract run of both paths)", 1)
